@@ -36,6 +36,8 @@ var badDocs = []struct{ kind, text string }{
 	{"2020-with-dynamicRef", `{"$schema":"https://json-schema.org/draft/2020-12/schema","$dynamicRef":"#x","$defs":{"x":{"$dynamicAnchor":"x","type":"object"}},"properties":{"v":{"$dynamicRef":"#x"},"n":{"$recursiveRef":"#"}}}`},
 	{"draft07-items-array", `{"$schema":"http://json-schema.org/draft-07/schema#","items":[{"type":"string"}],"additionalItems":false,"dependencies":{"v":["n"],"n":{"required":["v"]}}}`},
 	{"2020-prefixItems", `{"$schema":"https://json-schema.org/draft/2020-12/schema","prefixItems":[{"type":"string"}],"items":false,"dependentSchemas":{"v":{"required":["n"]}},"unevaluatedProperties":false}`},
+	{"draft07-ref-beside-dynamicRef", `{"$schema":"http://json-schema.org/draft-07/schema#","definitions":{"x":{"$dynamicAnchor":"x"},"y":{"type":["object","string","null","number","array","boolean"]}},"properties":{"v":{"$ref":"#/definitions/y","$dynamicRef":"#x"},"n":{"$ref":"#/definitions/y","$dynamicRef":"#x"},"m":{"$ref":"#/definitions/y","$dynamicRef":"#/definitions/y"}},"$ref":"#/definitions/y","$dynamicRef":"#x"}`},
+	{"2020-ref-beside-dynamicRef", `{"$schema":"https://json-schema.org/draft/2020-12/schema","$defs":{"x":{"$dynamicAnchor":"x"},"y":{}},"properties":{"v":{"$ref":"#/$defs/y","$dynamicRef":"#x"},"n":{"$ref":"#/$defs/y","$dynamicRef":"#x"}},"$ref":"#/$defs/y","$dynamicRef":"#x"}`},
 	{"empty", `{}`},
 	{"boolean-false", `false`},
 	{"null", `null`},
